@@ -32,8 +32,12 @@ META = {
             "no schedule enumeration).  Contents stability is proved as 'every store of the resource is inside a "
             "bookkeeping array, and those are disjoint from live blocks' (the model has no byte memory).  Move: both "
             "move-assignment into a prepared target and move-construction are operations of the model and of every "
-            "theorem; that operator=(&&) swaps _upstream is read off the source by the translator "
-            "(Gen.move_swaps_upstream; defect fixed in /repo 2947382, see KNOWN_FINDINGS 'fixed:').  Preconditions in the statements: page size 2^k "
+            "theorem; every std::swap line of operator=(&&) is a translator target (Gen.move_swaps_<member>, all 12 "
+            "members; the _upstream swap was missing before /repo 2947382, KNOWN_FINDINGS 'fixed:'); move assignment "
+            "between two non-empty resources with different page allocators (and page sizes) and upstreams is "
+            "c06_move_assign_exchanges over a pair model plus monitored two-resource runs of the real class (every "
+            "page / oversize block back to the allocator it came from exactly once, destructors once, contains, "
+            "contents, release in either order, destruction).  Preconditions in the statements: page size 2^k "
             ">= 128, pages page-size aligned, alignment a power of two <= 2^32, sizes and addresses below 2^62 (no "
             "address wrap), oracle regions fresh.  Trusted: Coq kernel, translator, extraction + OCaml driver, C++ "
             "harness (recording allocators, -fno-access-control walk of the intrusive arrays).",
@@ -163,6 +167,45 @@ def move_ctor_cases(P):
             (0, ["A:10:8", "A:%d:16" % (2 * P), "G:1001:1", "K", "A:16:8", "R"])]
 
 
+def gen_pair_case(rng, PA, PB):
+    """two resources with different page allocators / upstreams; both non-empty when a move assignment happens"""
+    ops = []
+    P = {"a": PA, "b": PB}
+
+    def some(x, n):
+        for _ in range(n):
+            k = rng.below(10)
+            if k < 4:
+                ops.append("%s:A:%d:%d" % (x, 1 + rng.below(P[x] // 2), 1 << rng.below(5)))
+            elif k < 6:
+                ops.append("%s:A:%d:%d" % (x, P[x] - rng.below(9), 8))
+            elif k < 8:
+                ops.append("%s:A:%d:%d" % (x, P[x] + 1 + rng.below(200), rng.choice([1, 8, 64])))
+            else:
+                ops.append("%s:G" % x)
+
+    for rd in range(1 + rng.below(2)):
+        some("a", 3 + rng.below(20))
+        some("b", 3 + rng.below(20))
+        # make sure both hold pages, an oversize block and a destructor
+        for x in ("a", "b"):
+            ops += ["%s:A:24:8" % x, "%s:A:%d:8" % (x, P[x] + 40), "%s:G" % x]
+        ops.append(rng.choice(["X", "Z"]))
+        some("a", rng.below(12))
+        some("b", rng.below(12))
+        if rng.chance(1, 3):
+            ops.append(rng.choice(["X", "Z"]))
+            some(rng.choice(["a", "b"]), rng.below(8))
+        rel = rng.below(4)           # release a first / b first / only one / none (destruction does it)
+        if rel == 0:
+            ops += ["a:R", "b:R"]
+        elif rel == 1:
+            ops += ["b:R", "a:R"]
+        elif rel == 2:
+            ops += [rng.choice(["a:R", "b:R"])]
+    return rng.below(2), ops
+
+
 def split_impl(line):
     """impl line -> (canonical text comparable with the model, [extras per op], monitors dict, detail)"""
     body, _, mon = line.partition(" | ")
@@ -248,10 +291,13 @@ def main(argv):
     # ------------------------------------------------------------------ cases
     xcases = {}   # id -> (P, shuffle, ops)
     scases = []
+    ycases = []
     if chk.replay:
         r = json.load(open(chk.replay))["replay"]
         if r.get("kind", "X") == "X":
             xcases["r0"] = (r["P"], r["shuffle"], r["ops"])
+        elif r["kind"] == "Y":
+            ycases.append("r0 Y %d %d %d %s" % (r["PA"], r["PB"], r["order"], " ".join(r["ops"])))
         else:
             scases.append("r0 %s %d %d %d %d" % (r["kind"], r["P"], r["T"], r["N"], r["seed"]))
     else:
@@ -266,6 +312,12 @@ def main(argv):
             for sh_, ops in move_ctor_cases(P):
                 xcases["k%d" % n] = (P, sh_, ops)
                 n += 1
+        y = 0
+        for PA, PB in [(128, 256), (256, 128), (4096, 512), (512, 4096), (256, 256)]:
+            for _ in range(8 if not thorough else 60):
+                order, ops = gen_pair_case(chk.rng, PA, PB)
+                ycases.append("y%d Y %d %d %d %s" % (y, PA, PB, order, " ".join(ops)))
+                y += 1
         m = 0
         for P in ([128, 256, 4096] if not thorough else [128, 256, 512, 4096]):
             for kind in ("S", "W"):
@@ -273,8 +325,8 @@ def main(argv):
                     for rep in range(2 if not thorough else 6):
                         scases.append("s%d %s %d %d %d %d" % (m, kind, P, T, 40 if T > 4 else 120, 1 + chk.rng.below(1 << 30)))
                         m += 1
-    chk.log("%d exclusive op sequences (%d ops), %d shared/swiss thread cases"
-            % (len(xcases), sum(len(c[2]) for c in xcases.values()), len(scases)))
+    chk.log("%d exclusive op sequences (%d ops), %d two-resource move cases, %d shared/swiss thread cases"
+            % (len(xcases), sum(len(c[2]) for c in xcases.values()), len(ycases), len(scases)))
 
     def report_monitors(cid, rep, mons, detail, what_prefix=""):
         parts = dict(re.findall(r"\[(\w+)\] (.*?)(?= // \[|$)", detail))
@@ -285,7 +337,7 @@ def main(argv):
 
     impl_out = {}
     if impl:
-        lines = ["%s X %d %d %s" % (cid, P, sh_, " ".join(ops)) for cid, (P, sh_, ops) in xcases.items()] + scases
+        lines = ["%s X %d %d %s" % (cid, P, sh_, " ".join(ops)) for cid, (P, sh_, ops) in xcases.items()] + ycases + scases
         impl_out = chk.run_cases(impl, lines, timeout=900)
     model_in, canon_impl = [], {}
     tags_seen = {}
@@ -310,6 +362,20 @@ def main(argv):
             tags_seen[t] = tags_seen.get(t, 0) + 1
         if tg & {"second-page-array", "second-oversize-array", "second-destroy-array", "array-extra-page"}:
             nontrivial += 1
+    for l in ycases:
+        f = l.split()
+        cid = f[0]
+        rep = {"kind": "Y", "PA": int(f[2]), "PB": int(f[3]), "order": int(f[4]), "ops": f[5:]}
+        line = impl_out.get(cid)
+        if line is None:
+            continue
+        if line.startswith("CRASH") or " | " not in line:
+            chk.violate("impl-crash-move", "two resources with move assignment crashed the driver: %s" % line[:300], rep)
+            continue
+        _, _, mon = line.partition(" | ")
+        mons = dict(re.findall(r"(mon_\w+)=(\d)", mon))
+        report_monitors(cid, rep, mons, mon.partition("detail=")[2],
+                        "two resources (page sizes %s/%s, own allocators and upstreams) with move assignment: " % (f[2], f[3]))
     for l in scases:
         cid = l.split()[0]
         f = l.split()
@@ -342,14 +408,16 @@ def main(argv):
                     chk.broke("correspondence", "MRModel.step vs ExclusiveMonotonicBufferResource, case %s op #%d %s (P=%d)"
                               % (cid, k, ops[k] if k < len(ops) else "?", P),
                               "impl : %s\nmodel: %s" % (a[k] if k < len(a) else "-", b[k] if k < len(b) else "-"))
-    chk.cov["evaluations"] = len(xcases) + len(scases)
+    chk.cov["evaluations"] = len(xcases) + len(ycases) + len(scases)
     chk.cov["distinct_nontrivial"] = nontrivial
     chk.cov["traces_validated_against_impl"] = validated
     chk.cov["rule"] = ("exclusive cases = (page size, page order, op sequence) with sizes placed at every case split: remaining "
                        "space of the old page = sizeof(PageArray) +-8, request = page_size - sizeof(PageArray) +-8, 15/16 "
                        "pages, 15/16 oversize blocks, 15/16 destructors, zero bytes, alignment above the page size, release "
                        "and move-assignment in the middle; non-trivial = distinct cases that create a second page / oversize "
-                       "/ destroy-task array or take the extra-page placement; shared cases = (variant, page size, thread "
+                       "/ destroy-task array or take the extra-page placement; two-resource cases = (page sizes, op sequence) "
+                       "where both resources hold pages, an oversize block and a destructor when `a = std::move(b)` / "
+                       "`b = std::move(a)` runs, then allocate / release in either order / destruction; shared cases = (variant, page size, thread "
                        "count, seed) with threads created in waves while others allocate")
     chk.notes["bookkeeping_events_hit"] = tags_seen
     ids = list(canon_impl)
